@@ -28,9 +28,10 @@ Judge(e) ==
               ELSE IF o.status # 0 /\ o.stderr_len = 0 THEN {D({"C17"}, "cli_error_without_message", "")}
               ELSE {}]
   ELSE
-    [cls |-> IF Has(o, "panic") \/ Has(o, "timeout") THEN "crash" ELSE IF Has(o, "ok") THEN "ok" ELSE "err",
+    [cls |-> IF Has(o, "panic") \/ Has(o, "timeout") \/ Has(o, "abort") THEN "crash" ELSE IF Has(o, "ok") THEN "ok" ELSE "err",
      devs |-> IF Has(o, "panic") THEN {D({"C17"}, "panic", o.panic)}
               ELSE IF Has(o, "timeout") THEN {D({"C17"}, "timeout", "")}
+              ELSE IF Has(o, "abort") THEN {D({"C17"}, "abort", o.abort)}      \* the worker process died (signal, abort)
               ELSE {}]
 Init == l = 1
 Next ==
